@@ -404,7 +404,7 @@ func (e *Engine) mergeObj(c *Term, a, b *Obj) *Obj {
 		for _, x := range b.Cur {
 			add(CurAlt{And(nc, x.G), x.Idx})
 		}
-		return &Obj{IsIter: true, Cands: a.Cands, CandObj: a.CandObj, MapObj: a.MapObj, Cur: cur, Epoch: a.Epoch, EffC: a.EffC, ValC: a.ValC, VerC: a.VerC}
+		return &Obj{IsIter: true, Cands: a.Cands, CandObj: a.CandObj, MapObj: a.MapObj, Snap: a.Snap, Cur: cur, Epoch: a.Epoch, EffC: a.EffC, ValC: a.ValC, VerC: a.VerC}
 	}
 	if a.Thunk != nil && a.Thunk == b.Thunk {
 		return a
@@ -430,6 +430,9 @@ func sameV(a, b Value) bool {
 		return ok && x.T == y.T
 	case StrV:
 		y, ok := b.(StrV)
+		if ok && (x.Ch != nil || y.Ch != nil) && (x.B == nil || y.B == nil) {
+			return x.Ch == y.Ch
+		}
 		if ok && (x.R != nil || y.R != nil) && (x.B == nil || y.B == nil) {
 			return x.R == y.R
 		}
@@ -866,17 +869,17 @@ func (e *Engine) mapLen(c *Ctx, m MapV) *Term {
 }
 
 func (e *Engine) rangeMap(c *Ctx, m MapV) IterV {
-	it := &Obj{IsIter: true, MapObj: -1, Cur: []CurAlt{{TTrue, 0}}}
+	it := &Obj{IsIter: true, MapObj: -1, Cur: []CurAlt{{TTrue, 0}}, Snap: map[int]int{}}
 	for _, a := range m.Alts {
 		if a.Obj == -1 {
 			continue
 		}
+		it.Snap[a.Obj] = len(c.S.Heap[a.Obj].Log)
 		for _, en := range c.S.Heap[a.Obj].Log {
-			if !en.Tomb {
-				en.G = And(en.G, a.G)
-				it.Cands = append(it.Cands, en)
-				it.CandObj = append(it.CandObj, a.Obj)
-			}
+			// deletions stay in the snapshot: they are never visited, but they end the life of earlier bindings
+			en.G = And(en.G, a.G)
+			it.Cands = append(it.Cands, en)
+			it.CandObj = append(it.CandObj, a.Obj)
 		}
 	}
 	return IterV{e.newObj(c, it)}
@@ -901,6 +904,10 @@ func (e *Engine) nextMap(c *Ctx, itv IterV, kt, vt types.Type) Value {
 		ver = map[int]int{}
 		for i, cand := range it.Cands {
 			ver[it.CandObj[i]] = len(c.S.Heap[it.CandObj[i]].Log)
+			if cand.Tomb {
+				eff[i] = TFalse
+				continue
+			}
 			g := cand.G
 			for j := i + 1; j < n; j++ {
 				if it.CandObj[j] != it.CandObj[i] {
@@ -957,6 +964,12 @@ func (e *Engine) nextMap(c *Ctx, itv IterV, kt, vt types.Type) Value {
 // ---------- strings ----------
 
 func strConcat(a, b StrV) StrV {
+	if a.B == nil && a.Ch != nil {
+		return mergeV(a.Ch.C, strConcat(a.Ch.A, b), strConcat(a.Ch.B, b)).(StrV)
+	}
+	if b.B == nil && b.Ch != nil {
+		return mergeV(b.Ch.C, strConcat(a, b.Ch.A), strConcat(a, b.Ch.B)).(StrV)
+	}
 	if a.R != nil && b.R != nil {
 		r := ropeConcat(a.R, b.R)
 		return StrV{Len: ropeLen(r), R: r}
@@ -1637,6 +1650,33 @@ func (e *Engine) slice(c *Ctx, x *ssa.Slice) Value {
 		}
 		return SliceV{alts}
 	case StrV:
+		if b.B == nil && b.Ch != nil && x.High == nil && x.Low != nil {
+			if lo := e.get(c, x.Low).(IntV).T; lo.IsConst() {
+				var cut func(s StrV) StrV
+				cut = func(s StrV) StrV {
+					if s.B == nil && s.Ch != nil {
+						return mergeV(s.Ch.C, cut(s.Ch.A), cut(s.Ch.B)).(StrV)
+					}
+					if s.R != nil && len(s.R.Toks[0]) > 0 {
+						if cs, ok := s.R.Toks[0][0].Concrete(); ok && int(lo.val) <= len(cs) {
+							first := append([]StrV(nil), s.R.Toks[0][1:]...)
+							if rest := cs[lo.val:]; rest != "" {
+								first = append([]StrV{flatC(rest)}, first...)
+							}
+							nr := &Rope{Toks: append([][]StrV{first}, s.R.Toks[1:]...)}
+							return StrV{Len: ropeLen(nr), R: nr}
+						}
+					}
+					f := fl(s)
+					l := int(lo.val)
+					if l > len(f.B) {
+						l = len(f.B)
+					}
+					return StrV{Len: Sub(f.Len, lo), B: f.B[l:]}
+				}
+				return cut(b)
+			}
+		}
 		if b.R != nil && x.High == nil && x.Low != nil {
 			if lo := e.get(c, x.Low).(IntV).T; lo.IsConst() && len(b.R.Toks[0]) > 0 {
 				if cs, ok := b.R.Toks[0][0].Concrete(); ok && int(lo.val) <= len(cs) {
@@ -1877,6 +1917,11 @@ func (e *Engine) doCall(fr *Frame, c *Ctx, x *ssa.Call) (Value, *Ctx, bool) {
 		return nil, c, true // dependency initialisers are not run (their globals are only reachable through intercepted calls)
 	}
 	if h, ok := e.intercept[name]; ok {
+		if distributable[name] {
+			if v, alive, done := e.distribute(h, fr, c, args, cc); done {
+				return v, c, alive
+			}
+		}
 		v, alive := h(e, fr, c, args, cc)
 		return v, c, alive
 	}
@@ -2113,6 +2158,10 @@ func (e *Engine) guardedRange(fr *Frame, c *Ctx, b *ssa.BasicBlock, k int, nx *s
 		}
 		// effectiveness of candidate i: last snapshot write of its key, and still present
 		cand := it.Cands[i]
+		if cand.Tomb {
+			c.S.Heap[itv.Obj] = &Obj{IsIter: true, Cands: it.Cands, CandObj: it.CandObj, MapObj: it.MapObj, Snap: it.Snap, Cur: []CurAlt{{TTrue, i + 1}}, Epoch: it.Epoch}
+			continue
+		}
 		g := cand.G
 		for j := i + 1; j < n && !g.IsFalse(); j++ {
 			if it.CandObj[j] != it.CandObj[i] {
@@ -2122,11 +2171,26 @@ func (e *Engine) guardedRange(fr *Frame, c *Ctx, b *ssa.BasicBlock, k int, nx *s
 		}
 		var val Value
 		if !g.IsFalse() {
-			v, present := e.mapLookup(c, MapV{[]MapAlt{{TTrue, it.CandObj[i]}}}, cand.K, mt.Elem())
+			// under g no later snapshot entry rebinds the key, so the value is the candidate's own one unless the
+			// loop body itself has written (or deleted) the key since the range started
+			val = cand.V
+			present := TTrue
+			log := c.S.Heap[it.CandObj[i]].Log
+			for _, en := range log[it.Snap[it.CandObj[i]]:] {
+				hit := And(en.G, eqV(cand.K, en.K))
+				if hit.IsFalse() {
+					continue
+				}
+				if en.Tomb {
+					present = And(present, Not(hit))
+				} else {
+					val = mergeV(hit, en.V, val)
+					present = Or(present, hit)
+				}
+			}
 			g = And(g, present)
-			val = v
 		}
-		c.S.Heap[itv.Obj] = &Obj{IsIter: true, Cands: it.Cands, CandObj: it.CandObj, MapObj: it.MapObj, Cur: []CurAlt{{TTrue, i + 1}}, Epoch: it.Epoch}
+		c.S.Heap[itv.Obj] = &Obj{IsIter: true, Cands: it.Cands, CandObj: it.CandObj, MapObj: it.MapObj, Snap: it.Snap, Cur: []CurAlt{{TTrue, i + 1}}, Epoch: it.Epoch}
 		if g.IsFalse() || And(c.S.PC, g).IsFalse() {
 			continue
 		}
@@ -2156,4 +2220,45 @@ func (e *Engine) guardedRange(fr *Frame, c *Ctx, b *ssa.BasicBlock, k int, nx *s
 		}
 		c.Prev = nil
 	}
+}
+
+// distributable: pure string functions whose models need structured (roped / constant) arguments: a lazily merged
+// string argument is split into its alternatives and the results are merged.
+var distributable = map[string]bool{
+	"path.Dir": true, "path.Base": true, "strings.Split": true, "strings.HasPrefix": true, "strings.TrimPrefix": true,
+	"github.com/go-openapi/jsonpointer.Unescape": true, "github.com/go-openapi/jsonpointer.Escape": true,
+	"net/url.PathUnescape": true, "github.com/go-openapi/spec.MustCreateRef": true, "strconv.Atoi": true,
+	"strings.ToUpper": true, "strings.ToLower": true, "path.Ext": true,
+}
+
+func (e *Engine) distribute(h func(*Engine, *Frame, *Ctx, []Value, *ssa.CallCommon) (Value, bool), fr *Frame, c *Ctx, args []Value, cc *ssa.CallCommon) (Value, bool, bool) {
+	for i, a := range args {
+		sv, ok := a.(StrV)
+		if !ok || sv.B != nil || sv.Ch == nil {
+			continue
+		}
+		call := func(x StrV) (Value, bool) {
+			na := append([]Value(nil), args...)
+			na[i] = x
+			if v, alive, done := e.distribute(h, fr, c, na, cc); done {
+				return v, alive
+			}
+			return h(e, fr, c, na, cc)
+		}
+		va, okA := call(sv.Ch.A)
+		vb, okB := call(sv.Ch.B)
+		switch {
+		case okA && okB:
+			if va == nil || vb == nil {
+				return va, true, true
+			}
+			return mergeV(sv.Ch.C, va, vb), true, true
+		case okA:
+			return va, true, true
+		case okB:
+			return vb, true, true
+		}
+		return nil, false, true
+	}
+	return nil, false, false
 }
